@@ -360,3 +360,85 @@ Proof.
   - apply negb_false_iff, declared_in in Hk.
     eapply enum_neq_sound; eauto.
 Qed.
+
+(** * When the index can be built: every zone at most as long as the first, below 2^16 rows *)
+Lemma set_bit_at_ok : forall bs k bit, (k < length bs)%nat ->
+  exists bs', set_bit_at bs k bit = Some bs' /\ length bs' = length bs.
+Proof.
+  induction bs as [|b r IH]; intros k bit Hk; cbn [length] in Hk; [lia|].
+  destruct k as [|k]; cbn [set_bit_at].
+  - eexists. split; [reflexivity|reflexivity].
+  - destruct (IH k bit) as [r' [E L]]; [lia|]. rewrite E. eexists. split; [reflexivity|]. cbn [length]. lia.
+Qed.
+
+Lemma upd_nth_length : forall (A : Type) k (x : A) l, length (upd_nth k x l) = length l.
+Proof.
+  intros A k x l. revert k. induction l as [|y r IH]; intros k; destruct k; cbn [upd_nth length]; try reflexivity.
+  now rewrite IH.
+Qed.
+
+Lemma upd_nth_forall : forall (A : Type) (P : A -> Prop) k x l, Forall P l -> P x -> Forall P (upd_nth k x l).
+Proof.
+  intros A P k x l. revert k. induction l as [|y r IH]; intros k HF Hx; destruct k; cbn [upd_nth]; try assumption.
+  - inversion HF; subst. now constructor.
+  - inversion HF; subst. constructor; [assumption|now apply IH].
+Qed.
+
+Lemma add_rows_ok : forall variants vals i B nb,
+  length B = length variants -> Forall (fun bs => length bs = nb) B ->
+  i + N.of_nat (length vals) <= 8 * N.of_nat nb ->
+  add_rows variants vals i B <> None.
+Proof.
+  intros variants vals. induction vals as [|v r IH]; intros i B nb HL HF Hb; cbn [add_rows]; [discriminate|].
+  cbn [length] in Hb.
+  destruct (position variants v) as [vid|] eqn:P.
+  - pose proof (position_lt _ _ _ P) as Hlt.
+    destruct (nth_error B vid) as [bs|] eqn:Hn; [|apply nth_error_None in Hn; lia].
+    assert (Hbs : length bs = nb).
+    { rewrite Forall_forall in HF. apply HF. eapply nth_error_In; eassumption. }
+    unfold set_bit.
+    destruct (set_bit_at_ok bs (N.to_nat (i / 8)) (i mod 8)) as [bs' [E L']].
+    { rewrite Hbs. assert (i / 8 < N.of_nat nb) by (apply N.div_lt_upper_bound; lia). lia. }
+    rewrite E. apply (IH (i + 1) _ nb).
+    + now rewrite upd_nth_length.
+    + apply upd_nth_forall; [assumption|congruence].
+    + lia.
+  - apply (IH (i + 1) B nb); [assumption|assumption|lia].
+Qed.
+
+Lemma add_zone_values_ok : forall variants rpz vals,
+  N.of_nat (length vals) <= rpz -> add_zone_values variants rpz vals <> None.
+Proof.
+  intros variants rpz vals Hlen. unfold add_zone_values.
+  apply (add_rows_ok variants vals 0 _ (N.to_nat ((rpz + 7) / 8))).
+  - apply repeat_length.
+  - apply Forall_forall. intros bs Hin. apply repeat_spec in Hin. subst bs.
+    unfold alloc_bitmap. apply repeat_length.
+  - rewrite N2Nat.id. pose proof (N.div_mod (rpz + 7) 8 ltac:(lia)) as D.
+    pose proof (N.mod_lt (rpz + 7) 8 ltac:(lia)). lia.
+Qed.
+
+Lemma build_zones_ok : forall variants rpz zones acc,
+  (forall zid vals, In (zid, vals) zones -> N.of_nat (length vals) <= rpz) ->
+  build_zones variants rpz zones acc <> None.
+Proof.
+  intros variants rpz zones. induction zones as [|[z vs] r IH]; intros acc Hlen; cbn [build_zones]; [discriminate|].
+  destruct (add_zone_values variants rpz vs) as [bits|] eqn:E.
+  - apply IH. intros zid vals Hin. apply (Hlen zid vals). now right.
+  - exfalso. eapply add_zone_values_ok; [|exact E]. apply (Hlen z vs). now left.
+Qed.
+
+(** The flush planner's zones (the first zone is the longest) can always be indexed as
+    long as a zone has fewer than 2^16 rows. *)
+Theorem enum_build_ok : forall variants z0 vals0 rest,
+  N.of_nat (length vals0) < 2 ^ zidx_rpz_bits ->
+  (forall zid vals, In (zid, vals) rest -> (length vals <= length vals0)%nat) ->
+  build_all variants ((z0, vals0) :: rest) <> None.
+Proof.
+  intros variants z0 vals0 rest Hsmall Hlen. unfold build_all, build_with.
+  unfold rows_per_zone_of. rewrite N.mod_small by assumption.
+  match goal with |- context [build_zones ?v ?r ?z ?a] => pose proof (build_zones_ok v r z a) as Hok end.
+  destruct (build_zones variants (N.of_nat (length vals0)) ((z0, vals0) :: rest) []); [discriminate|].
+  exfalso. apply Hok; [|reflexivity].
+  intros zid vals [[= <- <-]|Hin]; [lia|]. specialize (Hlen zid vals Hin). lia.
+Qed.
